@@ -211,6 +211,10 @@ def run_case(seed):
     return out
 
 
+def two_dirs_colander(seed):
+    return core.two_dirs_case(PID, 'colander', seed)
+
+
 def run(tier, seed):
     rep = core.Report(PID, tier, seed)
     pg = core.proof_gate(PID, thorough=(tier == 'thorough'))
@@ -226,6 +230,8 @@ def run(tier, seed):
     rep.obligation('correspondence: Writers.Colander.colander = output directory of Colander.strain (binary files byte for byte, '
                    'level headers token for token, global header with floats by value)',
                    not any(v[0].get('kind') in ('model-vs-impl', 'model-taste') for v in rep.violations))
+    for r in core.run_cases(two_dirs_colander, [seed * 100000 + 99000 + i for i in range(1 if tier == 'quick' else 5)]):
+        rep.merge(r)
     rep.obligation('correspondence: Abstract.pf_disk of the abstract plotfile = the directory on disk the implementation reads',
                    not any(v[0].get('kind') in ('encode', 'spec') for v in rep.violations))
     rep.obligation("hypotheses of C05_tool on every generated plotfile: goodb = true (proved sound for 'good')",
